@@ -169,6 +169,16 @@ def runHist (p : Policy) (cs : Sites) (mkeys : List String) : List Op → St →
   | [], _ => []
   | op :: rest, s => (op.run p cs mkeys s).writes :: runHist p cs mkeys rest (op.next p cs mkeys s)
 
+/-- the trace of a history: the state BEFORE each operation together with what the operation wrote -/
+def traceHist (p : Policy) (cs : Sites) (mkeys : List String) : List Op → St → List (St × List Nat)
+  | [], _ => []
+  | op :: rest, s => (s, (op.run p cs mkeys s).writes) :: traceHist p cs mkeys rest (op.next p cs mkeys s)
+
+/-- the values an operation loads from text are outside the finding class -/
+def Op.shapeSafe (p : Policy) : Op → Bool
+  | .parseText shape => safe p shape
+  | _ => true
+
 /-- the state at the end of a history -/
 def endState (p : Policy) (cs : Sites) (mkeys : List String) : List Op → St → St
   | [], s => s
